@@ -1,4 +1,5 @@
 import PoseVerif.Driver.Codec
+import PoseVerif.Model.Cache
 /-!
 `posedriver`: one JSON request per input line, one JSON answer per output line.
 Runs the executable definitions of the model (the same ones the theorems are about).
@@ -15,6 +16,79 @@ def cacheOf (j : Json) : R (Option CacheEntry) :=
     let b ← getHex c "hex"
     pure ((runBR (rdHeader none) b 0).bind (·.1.2))
   | .error _ => pure none
+
+def hmutOf (j : Json) : R HMut := do
+  let kind ← j.getObjValAs? String "kind"
+  match kind with
+  | "width" => pure (.setWidth (← getNat j "v"))
+  | "dims" => pure (.setDims (← getNat j "w") (← getNat j "h") (← getNat j "d"))
+  | "rename_comp" => pure (.renameComp (← getNat j "i") (← getStrHex j "s"))
+  | "rename_point" => pure (.renamePoint (← getNat j "i") (← getNat j "j") (← getStrHex j "s"))
+  | "set_limb" => pure (.setLimb (← getNat j "i") (← getNat j "k") (← getNat j "a") (← getNat j "b"))
+  | "append_limb" => pure (.appendLimb (← getNat j "i") (← getNat j "a") (← getNat j "b"))
+  | "set_color" => pure (.setColor (← getNat j "i") (← getNat j "k") (← getNat j "r") (← getNat j "g") (← getNat j "b"))
+  | "pop_comp" => pure .popComp
+  | k => throw s!"unknown mutation {k}"
+
+/-- C06: run a history on the store machine; bodies are computed by the codec model from the header the store hands out -/
+def runHistory (j : Json) : R Json := do
+  let files ← (← (← j.getObjVal? "files").getArr?).toList.mapM fun f => do
+    match fromHex (← f.getStr?) with
+    | some b => pure b
+    | none => throw "bad hex"
+  let steps ← (← j.getObjVal? "steps").getArr?
+  let mut st : Store Header := Store.empty
+  let mut handles : Array Nat := #[]
+  let mut out : Array Json := #[]
+  for step in steps do
+    match step.getObjVal? "read" with
+    | .ok fi =>
+      let file := files.getD (← fi.getNat?) []
+      let w ← match step.getObjVal? "window" with
+        | .ok v => windowOfJson v
+        | .error _ => pure {}
+      let reader ← (step.getObjValAs? String "reader" <|> pure "bytes")
+      -- the cache entry as the codec model sees it
+      let ce : Option CacheEntry := match st.cache with
+        | some (key, e, a) => (st.heap a).map fun h => { key, endOff := e, header := h }
+        | none => none
+      let (st', r) := st.exec parseHeader (.read file)
+      let res := if reader == "stream" then (readSource file ce w).map (·.1) else (readBytes file ce w).map (·.1)
+      match r, res with
+      | some addr, some p =>
+        let hv := st'.heap addr
+        if hv != some p.header then throw "model inconsistent: store and codec disagree on the header"
+        st := st'
+        handles := handles.push addr
+        out := out.push (Json.mkObj [("handle", natJ (handles.size - 1)), ("pose", poseToJson p)])
+      | some addr, none =>
+        -- the header decoded (and was cached) but the body read failed: the call raises, the caller gets nothing
+        st := { st' with handed := st'.handed.erase addr }
+        out := out.push (Json.mkObj [("handle", Json.null)])
+      | none, _ => out := out.push (Json.mkObj [("handle", Json.null)])
+    | .error _ =>
+    match step.getObjVal? "mutate" with
+    | .ok hn =>
+      let addr := handles.getD (← hn.getNat?) 0
+      let m ← hmutOf step
+      st := (st.exec parseHeader (.mutate addr m.apply)).1
+      out := out.push (Json.mkObj [("handle", Json.null)])
+    | .error _ =>
+    match step.getObjVal? "copy" with
+    | .ok hn =>
+      let addr := handles.getD (← hn.getNat?) 0
+      let (st', r) := st.exec parseHeader (.copy addr)
+      st := st'
+      match r with
+      | some a => handles := handles.push a; out := out.push (Json.mkObj [("handle", natJ (handles.size - 1))])
+      | none => out := out.push (Json.mkObj [("handle", Json.null)])
+    | .error _ =>
+      st := (st.exec parseHeader .clear).1
+      out := out.push (Json.mkObj [("handle", Json.null)])
+  let final := handles.map fun a => match st.heap a with
+    | some h => headerToJson h
+    | none => Json.null
+  pure (Json.mkObj [("ok", Json.bool true), ("steps", Json.arr out), ("final", Json.arr final)])
 
 def handle (j : Json) : R Json := do
   let op ← j.getObjValAs? String "op"
@@ -39,6 +113,7 @@ def handle (j : Json) : R Json := do
       match readBytes b cache w with
       | some (p, _) => pure (Json.mkObj [("ok", Json.bool true), ("pose", poseToJson p)])
       | none => pure failJ
+  | "history" => runHistory j
   | _ => throw s!"unknown op {op}"
 
 partial def loop (hin hout : IO.FS.Stream) : IO Unit := do
